@@ -109,6 +109,9 @@ class SmallBufferAllocator {
     auto& globals = getSmallBufferGlobals<kChunkSize>();
     auto& lock = globals.backingStoreLock;
     while (!lock.compare_exchange_weak(allocId, 1, std::memory_order_acquire)) {
+      // A failed compare_exchange stores the observed (non-zero, i.e. held) value in allocId;
+      // retrying with it would "acquire" the lock out from under its holder.
+      allocId = 0;
     }
     size_t bytes = kMallocBytes * globals.backingStore.size();
     lock.store(0, std::memory_order_release);
